@@ -18,7 +18,8 @@ RULE = ("Hypothesis draws a series (10 classes, n 4..200, |v|+|c| <= 1e4), a gap
         "lambda; (3) f(reversed y) == reversed f(y) with the same lambda for gu, pgu, optv, optvp, optvplc. A unit difference is "
         "accepted only where an independent reference curve sits within the tie width of a half, a different lambda only if both are "
         "reference near-minimisers. Relation (1) is also checked through the whits / whitsvc / whitswcv accessors for uint8/int8/uint16/int16/int32/float32 rasters. The prange cube driver ws2doptvplc_tyx is held to relation (2) as well. Non-trivial: c != 0 / non-palindromic and the series is not itself linear (2-3); any linear "
-        "series (1); distinct by content hash.")
+        "series (1); distinct by content hash. "
+        " Added after the fifth seeded round: accessor_linear with nodata=0 next to an unrelated attribute; generic 'history' sub-check for the three smoother accessors in all dimension orders.")
 ASSUME = ["LAPACK reference curve only used to adjudicate unit differences (rounding ties)"]
 
 
